@@ -205,7 +205,8 @@ def member_type(b, i, k, kinds):
 
 
 def check_pack_detector(chk, detector, n, kinds, where):
-    """`where`: 'contract' (state variables), 'struct_file', 'struct_contract'"""
+    """`where`: 'contract' / 'abstract_contract' (state variables), 'struct_file', 'struct_contract' / 'struct_abstract' / 'struct_library' /
+    'struct_interface' (a struct declared inside that kind of contract)"""
     e = chk.engine()
     fname = {'pack_storage_variables': 'pack_storage_variables_optimization',
              'pack_struct_variables': 'pack_struct_variables_optimization'}[detector]
@@ -213,15 +214,16 @@ def check_pack_detector(chk, detector, n, kinds, where):
     b = sol.TreeBuilder()
     ks, pre = size_vars(n, 'm')
     types = [member_type(b, i, ks[i], kinds) for i in range(n)]
-    if where == 'contract':
-        target = b.contract('Contract', 'C', [b.cpart(b.state_var(t, 'v%d' % i)) for i, t in enumerate(types)])
+    if where in ('contract', 'abstract_contract'):
+        target = b.contract('Contract' if where == 'contract' else 'Abstract', 'C', [b.cpart(b.state_var(t, 'v%d' % i)) for i, t in enumerate(types)])
         su = b.source_unit([b.supart(target)])
     elif where == 'struct_file':
         target = b.struct('S', [(t, 'v%d' % i) for i, t in enumerate(types)])
         su = b.source_unit([b.supart(target)])
     else:
         target = b.struct('S', [(t, 'v%d' % i) for i, t in enumerate(types)])
-        su = b.source_unit([b.supart(b.contract('Contract', 'C', [b.cpart(target)]))])
+        holder = {'struct_contract': 'Contract', 'struct_abstract': 'Abstract', 'struct_library': 'Library', 'struct_interface': 'Interface'}[where]
+        su = b.source_unit([b.supart(b.contract(holder, 'C', [b.cpart(target)]))])
     target_id = sol.loc_id(target.fields[0])
     sizes = [k * 8 for k in ks]
     declared, asc, desc = layout_slots_bv(sizes), sorted_slots_bv(sizes), sorted_slots_bv(sizes, True)
@@ -267,7 +269,7 @@ def check_pack_detector(chk, detector, n, kinds, where):
                       '%s: %s; member sizes %r: declared %d slots, ascending %d, descending %d' % (detector, why, vals, d, a, ds),
                       {'job': 'detect', 'detector': detector, 'source': text, 'observed': nat})
     # vacuity guards + translator validation
-    if not chk.undecided and (n >= 3 and (n_rep == 0 or n_not == 0)):
+    if not chk.undecided and not chk.violations and not getattr(chk, '_pending_viol', None) and (n >= 3 and (n_rep == 0 or n_not == 0)):
         chk.broken('%s n=%d: vacuous harness (reported paths %d, silent paths %d)' % (detector, n, n_rep, n_not))
     step = max(1, len(res) // (5 if chk.quick else 40))
     jobs, exp = [], []
@@ -330,7 +332,7 @@ def body(chk):
     maxlen = 5 if chk.quick else 7
     nmem = 4 if chk.quick else 5
     chk.bounds = {'storage_slots_used: vector length': '0..%d' % maxlen, 'member sizes': '8*k bits, k in 1..32',
-                  'pack detectors: members per contract/struct': '1..%d' % nmem,
+                  'pack detectors: members per contract/struct': '1..%d' % nmem, 'containers': 'contract, abstract contract (state variables); file level, contract, abstract contract, library, interface (structs)',
                   'outside': 'longer member lists; members of non-elementary type (all count 256 bits, covered by get_type_size)'}
     chk.assumptions = ['slice::sort contract: result is a sorted permutation of the input',
                        'Vec/HashSet contracts of DESIGN.md 2.4', 'parser produces uintN/intN with N in 8..256 step 8 and bytesN with N in 1..32']
@@ -344,6 +346,9 @@ def body(chk):
     cases.append(('pack_struct_variables', 2, ['uint', 'bytes'], 'struct_contract'))
     cases.append(('pack_struct_variables', 3, ['uint'], 'struct_contract'))
     cases.append(('pack_struct_variables', nmem, ['uint'], 'struct_contract'))
+    cases.append(('pack_storage_variables', 3, ['uint', 'bytes'], 'abstract_contract'))
+    for holder in ('struct_abstract', 'struct_library', 'struct_interface'):
+        cases.append(('pack_struct_variables', 3, ['uint'], holder))
     chk.parallel(lambda c, it: check_pack_detector(c, *it), cases)
     kani_cross_check(chk)
 
